@@ -608,7 +608,7 @@ def on_time(intervals, a, b):
     return sum(max(0, min(b, y) - max(a, x)) for x, y in intervals)
 
 
-FILTRATION_TRIGGERS = {"eco_normal", "eco_tank", "eco_waiting", "reload", "eco", "heating_delay"}
+FILTRATION_TRIGGERS = {"eco_normal", "eco_tank", "eco_waiting", "reload", "reloaded", "eco", "heating_delay"}
 
 
 def extract_trace(log, t0_us):
@@ -656,7 +656,7 @@ def lean_lines_for(sc, hs, eps_us, t0_us, first_eco_at):
         if name.startswith("timer:"):
             cur = ["tick", t, []]
             groups.append(cur)
-        elif name in ("msg:eco_normal", "msg:eco_tank", "msg:eco_waiting", "msg:reload", "msg:eco"):
+        elif name in ("msg:eco_normal", "msg:eco_tank", "msg:eco_waiting", "msg:reload", "msg:reloaded", "msg:eco"):
             if cur is None or cur[0] != "tick":
                 groups.append(["unexpected", t, name])
             else:
